@@ -175,23 +175,24 @@ Proof.
 Qed.
 
 Lemma unescrow_loop_total l : forall s,
-  Forall (fun kv => order_ok kv.2) l -> Inv_sk s -> Inv_cons s ->
+  Forall (fun kv => order_ok kv.2) l -> Forall (fun kv => qty_ok kv.2) l -> Inv_sk s -> Inv_cons s ->
   (forall a k, lsum a k l <= U (bl_escrowed (get_balance s a k))) ->
   (forall a k, U (bl_tradable (get_balance s a k)) + U (bl_escrowed (get_balance s a k)) < BOUND) ->
   exists s', lfold unesc_step l s = LOk s'.
 Proof.
-  induction l as [|kv l IH]; intros s Hall Hsk Hcons Hle Hb; cbn [lfold]; [eauto|].
-  inversion Hall as [|? ? Hkv Hall']; subst.
+  induction l as [|kv l IH]; intros s Hall Hallq Hsk Hcons Hle Hb; cbn [lfold]; [eauto|].
+  inversion Hall as [|? ? Hkv Hall']; subst. inversion Hallq as [|? ? Hkvq Hallq']; subst.
   pose proof Hsk as (_ & Hscale & _).
   pose proof Hkv as (d & Hp & Hin & Hpos).
+  assert (Hexp : dexp d <= 0) by (destruct Hkvq as (d2 & Hp2 & He2); rewrite Hp in Hp2; inversion Hp2; subst; exact He2).
   pose proof (lsum_nonneg (so_seller kv.2) (so_batch_key kv.2) l Hall') as Hnn.
   pose proof (Hle (so_seller kv.2) (so_batch_key kv.2)) as Hle0. cbn [lsum] in Hle0.
   rewrite ofun_self, (order_units_parse _ _ Hp) in Hle0.
-  destruct (unescrow_total (so_seller kv.2) (so_batch_key kv.2) _ d s Hscale Hp Hin Hpos ltac:(lia) (Hb _ _))
+  destruct (unescrow_total (so_seller kv.2) (so_batch_key kv.2) _ d s Hscale Hp Hin Hexp Hpos ltac:(lia) (Hb _ _))
     as [s1 H1].
   change (unesc_step s kv = LOk s1) in H1. rewrite H1. cbn [lbind].
   pose proof (one_unescrow s kv s1 Hkv Hsk Hcons H1) as (A1 & A2 & _ & _ & A5).
-  apply IH; [exact Hall' | exact A1 | exact A2 | |].
+  apply IH; [exact Hall' | exact Hallq' | exact A1 | exact A2 | |].
   - intros a k. destruct (A5 a k) as (X1 & _ & _). specialize (Hle a k). cbn [lsum] in *. lia.
   - intros a k. destruct (A5 a k) as (X1 & X2 & _). specialize (Hb a k). lia.
 Qed.
@@ -220,15 +221,17 @@ Lemma prune_unfold t s :
         (fun s1 => LOk (s1 <| sell_orders := del_all (expired_orders t s) (sell_orders s1) |>)).
 Proof. reflexivity. Qed.
 
-Theorem prune_total t s : Inv_core s -> Inv_bound s -> exists s', prune_sell_orders t s = LOk s'.
+Theorem prune_total t s :
+  Inv_core s -> Inv_bound s -> Inv_qty s -> exists s', prune_sell_orders t s = LOk s'.
 Proof.
-  intros Hcore Hb. rewrite prune_unfold.
+  intros Hcore Hb Hqty. rewrite prune_unfold.
   pose proof (te_bound s) as Hte.
   apply Inv_core_split in Hcore. destruct Hcore as (Hsk & Hcons & Hesc).
   pose proof Hsk as (Hct & Hscale & Hkeys).
   set (l := expired_orders t s).
   destruct (unescrow_loop_total l s) as [s1 H1].
   - apply expired_orders_ok. exact Hscale.
+  - apply Forall_forall. intros [id o] Hin. apply expired_orders_in in Hin. eapply Hqty. apply Hin.
   - exact Hsk.
   - exact Hcons.
   - intros a k. rewrite (Hesc a k).
@@ -338,7 +341,8 @@ Qed.
 Lemma prune_step t s s' : Inv_core s -> prune_sell_orders t s = LOk s' -> step_ok s s'.
 Proof.
   intros Hc H. destruct (prune_post t s s' Hc H) as (H1 & H2 & H3 & H4 & _).
-  split; [exact H1|]. split; [exact H2|].
-  apply Inv_orders_sub; try (rewrite H3; reflexivity).
-  intros id o Hid. rewrite H4 in Hid. apply del_all_lookup in Hid. apply Hid.
+  split; [exact H1|]. split; [exact H2|]. split.
+  - apply Inv_orders_sub; try (rewrite H3; reflexivity).
+    intros id o Hid. rewrite H4 in Hid. apply del_all_lookup in Hid. apply Hid.
+  - apply Inv_qty_sub. intros id o Hid. rewrite H4 in Hid. apply del_all_lookup in Hid. apply Hid.
 Qed.
